@@ -162,3 +162,23 @@ pub fn vertex_buffer_rules(buffers: &[(u64, Vec<(wgt::VertexFormat, u64, u32)>)]
     }
     Ok(())
 }
+
+/// check_stage of one vertex entry point with derived bind group layouts (so that only the vertex
+/// inputs are judged) and the given attributes as provided inputs.
+pub fn check_vertex_inputs(module: &naga::Module, info: &naga::valid::ModuleInfo, entry: &str, inputs: &[(u32, wgt::VertexFormat)]) -> Result<(), String> {
+    let lim = limits();
+    let iface = Interface::new(module, info, lim.clone());
+    let mut src = BindingLayoutSource::new_derived(&lim);
+    let mut sizes = Default::default();
+    let mut io = StageIo::default();
+    for (loc, fmt) in inputs {
+        io.insert(*loc, wgpu_core::validation::InterfaceVar::vertex_attribute(*fmt));
+    }
+    match iface.check_stage(&mut src, &mut sizes, entry, wgt::ShaderStages::VERTEX, io, None) {
+        Ok(_) => Ok(()),
+        Err(e @ StageError::Input { .. }) => Err(format!("{e} [{e:?}]")),
+        Err(e @ StageError::MissingEntryPoint(_)) => Err(format!("{e}")),
+        // anything else concerns bindings or limits, not vertex inputs
+        Err(_) => Ok(()),
+    }
+}
